@@ -256,6 +256,7 @@ def check(ctx, rep):
     rep.rule("R16h", "the archive VFS reports every member as a regular file and every directory as a directory: the file-type bits of stat() are constants, not archive metadata", floor=1)
     rep.rule("R16i", "the index builder makes a directory level only where that name is not in its parent yet: an explicit directory member listed "
              "after its children (or twice) does not replace the level that holds them", floor=1)
+    rep.rule("R16j", "entry, listing and document of an archive request are the inner handler's, on every path of the ZIP handler's methods", floor=4)
     rep.rule("R16d", "inner handler = HandlerMultiplexer.getHandler(..., vfs=<archive VFS>) on the same selector", floor=1)
     rep.assume("zipfile.ZipFile methods act on the already opened archive only")
     vfs = ctx.cls("handlers.base.VFS_Real")
@@ -447,6 +448,7 @@ def check(ctx, rep):
                 "; ".join(sorted(set(problems))[:3]), key=f"R16g|{S.qualname}")
     stat_mode_obligations(ctx, rep, "R16h")
     index_level_obligations(ctx, rep, "R16i")
+    delegation_obligations(ctx, rep, "R16j")
     # R16d
     zh = ctx.cls("handlers.ZIP.ZIPHandler")
     gh = ctx.func("handlers.HandlerMultiplexer.getHandler")
@@ -471,6 +473,37 @@ def check(ctx, rep):
         if not found:
             rep.fail("R16d", "ZIPHandler inner chain", ctx.where(zh.methods.get("_makehandler") or list(zh.methods.values())[0]),
                      "ZIPHandler never re-runs the handler chain on the archive VFS")
+
+
+# ---------------------------------------------------------------------------------------------- R16j
+def delegation_obligations(ctx, rep, rule="R16j"):
+    """What a protocol asks of the ZIP handler (entry, listing, document) is answered by the inner handler, which the
+    ordinary chain chose on the archive VFS - on every path.  A shortcut that answers from the outer file system describes
+    the archive file, not the tree inside it (its top-level side files, its menu)."""
+    prog = ctx.prog
+    zh = ctx.cls("handlers.ZIP.ZIPHandler")
+    if zh is None:
+        rep.fail(rule, "ZIPHandler", detail="ZIP handler not found")
+        return
+    for name in ("getentry", "prepare", "isdir", "getdirlist", "write"):
+        m = prog.resolve_method(zh, name)
+        if m is None or m.cls is None or not prog.is_subclass(m.cls, zh):
+            continue
+        w = Walker(prog, ctx.resolver, inline=lambda fn, t, d: d < 3 and t.bound_cls is not None)
+        bad = []
+        n_paths = 0
+        for p in w.run(m, zh):
+            if p.kind == "raise":
+                continue
+            n_paths += 1
+            asked = any(e.kind == "call" and isinstance(e.node.func, ast.Attribute) and e.node.func.attr == name
+                        and norm(e.node.func.value) == "self.handler" for e in p.events)
+            if not asked:
+                tests = [f"{norm(e.node)[:40]} is {bool(e.extra)}" for e in p.events if e.kind == "test" and e.extra is not None]
+                bad.append(tests[0] if tests else "unconditionally")
+        rep.add(rule, f"{m.qualname}: answered by the inner handler on every path [{n_paths} paths]", n_paths > 0 and not bad, ctx.where(m),
+                "" if not bad else f"{name}() can return without asking the inner handler (when {bad[0]}): the answer then describes the archive file on the "
+                "real file system, not the tree inside the archive", key=f"{rule}|{name}")
 
 
 # ---------------------------------------------------------------------------------------------- R16i
